@@ -14,6 +14,9 @@ import (
 	"verif/refmodel"
 )
 
+// oddLarge: a byte count of 64 KiB or more that is not a multiple of 8 (of any chunk or word size).
+func oddLarge(L int) bool { return L >= 65536 && L < 1<<20 && L%8 != 0 }
+
 func Run(ctx *common.Ctx) int {
 	cmp := enum.NewCmp(ctx, 1e-8)
 	d := e2.New(cmp, calls.ByGroup("C01"))
@@ -98,9 +101,20 @@ func Run(ctx *common.Ctx) int {
 			wp, wq = refmodel.Poker(bits, m)
 			check(fmt.Sprintf("PokerTestBytes(m=%d)", m), func() (float64, float64) { return r.PokerTestBytes(data, m) }, wp, wq)
 		}
-		if len(data) <= 125 {
+		if len(data) <= 125 || oddLarge(len(data)) {
 			wp, wq = refmodel.BlockFreq(bits, 8)
 			check("FrequencyWithinBlockTestBytes(m=8)", func() (float64, float64) { return r.FrequencyWithinBlockTestBytes(data, 8) }, wp, wq)
+		}
+		if oddLarge(len(data)) {
+			// the entry points that expand the bytes to bits first, on byte counts that no chunking divides
+			wp, wq = refmodel.ApEn(bits, 5)
+			check("ApproximateEntropyTestBytes(m=5)", func() (float64, float64) { return r.ApproximateEntropyTestBytes(data, 5) }, wp, wq)
+			w1, w2, wq1, wq2 := refmodel.Overlapping(bits, 5)
+			check("OverlappingTemplateMatchingTestBytes(m=5)[P1]", func() (float64, float64) {
+				p1, _, q1, _ := r.OverlappingTemplateMatchingTestBytes(data, 5)
+				return p1, q1
+			}, w1, wq1)
+			_, _ = w2, wq2
 		}
 		return k
 	}
@@ -145,12 +159,17 @@ func Run(ctx *common.Ctx) int {
 		bevals += int64(byteCalls(data, func() interface{} { return map[string]interface{}{"filler_bytes": L, "seed": ctx.Seed + int64(L)} }))
 	}
 	// large byte inputs: a pattern count above 65535 (m=4 from 0.5 MiB, m=8 from 16 MiB of near-uniform data)
-	for _, L := range []int{125000, 1 << 20, 17 << 20} {
+	for _, L := range []int{125000, 1 << 20, 17 << 20, 65541, 65543, 125003, 131075} {
 		if ctx.Expired() {
 			exhaustive = false
 			break
 		}
 		data := enum.FillerBytes(L, uint64(ctx.Seed)+uint64(L))
+		if oddLarge(L) {
+			for k := 1; k <= 9; k++ {
+				data[L-k] |= 0x81 // a non-zero tail
+			}
+		}
 		bevals += int64(byteCalls(data, func() interface{} { return map[string]interface{}{"filler_bytes": L, "seed": ctx.Seed + int64(L)} }))
 		if L == 125000 {
 			for i := range data {
@@ -161,7 +180,7 @@ func Run(ctx *common.Ctx) int {
 			bevals += int64(byteCalls(data, func() interface{} { return map[string]interface{}{"filler_bytes": L, "two_thirds": "0x5A"} }))
 		}
 	}
-	cmp.Count("byte entry points: 1-byte patterns x 41 lengths x one replaced byte, fillers of 1..300 bytes, 125000 bytes, 1 MiB, 17 MiB", bevals)
+	cmp.Count("byte entry points: 1-byte patterns x 41 lengths x one replaced byte, fillers of 1..300 bytes, 125000 bytes, 1 MiB, 17 MiB, and 65541 / 65543 / 125003 / 131075 bytes (also block frequency, approximate entropy, overlapping)", bevals)
 	// S2: base patterns repeated to boundary-rich lengths with <= 1 (thorough <= 2) bit flips at critical positions
 	type lenSpec struct {
 		n       int
